@@ -32,6 +32,8 @@ type spend struct {
 	Prefer   uint32 // flags without which the case is trivial
 	WantOK   bool   // unmutated template: the reference must accept under consensusAll
 	Note     string
+
+	directed *directedCase
 }
 
 const (
@@ -53,6 +55,7 @@ type gctx struct {
 	thorough bool
 	mut      string // requested mutation ("" = none)
 	arg      int    // its parameter
+	sweep    bool   // arg enumerates a template parameter
 	applied  bool
 	tags     map[string]bool
 
@@ -83,6 +86,21 @@ func (g *gctx) mAll(name string) bool {
 }
 
 func (g *gctx) key() *keyT { return keys[g.r.Intn(len(keys))] }
+
+// withMut runs f with a secondary mutation switched on (used by templates that are built around a
+// deliberately bad signature); the primary mutation is restored afterwards.
+func (g *gctx) withMut(name string, arg int, f func()) {
+	m, a, ap := g.mut, g.arg, g.applied
+	g.mut, g.arg, g.applied = name, arg, false
+	f()
+	g.mut, g.arg, g.applied = m, a, ap
+}
+
+var badSigModes = []struct {
+	name string
+	args int
+}{{"sign-wrong-key", 24}, {"s-plus-n", 1}, {"r-plus-n", 1}, {"s-zero", 1}, {"high-s", 1}, {"der", 30}, {"sig-bitflip", 600}, {"sig-truncate", 3},
+	{"sig-no-hashtype", 1}, {"sign-wrong-scriptcode", 1}, {"sign-wrong-sigversion", 1}, {"hashtype", 256}, {"sign-wrong-amount", 40}, {"sig-empty", 1}}
 
 func hash160(b []byte) []byte {
 	s := sha256.Sum256(b)
@@ -353,7 +371,8 @@ type inner struct {
 	items func(sign func(k *keyT, from int) []byte) [][]byte
 }
 
-var innerKinds = []string{"pk", "pkh", "multisig", "multisig", "codesep", "cltv", "csv", "ifelse", "hashlock", "checksig-not", "multisig-not", "pk-verify-pk", "multisigverify"}
+var innerKinds = []string{"pk", "pkh", "multisig", "multisig", "codesep", "cltv", "csv", "ifelse", "hashlock", "checksig-not", "multisig-not", "pk-verify-pk", "multisigverify",
+	"checksig-not-badsig", "multisig-not-badsig"}
 
 func (g *gctx) makeInner(kind string, witness bool) inner {
 	r := g.r
@@ -614,6 +633,58 @@ func (g *gctx) makeInner(kind string, witness bool) inner {
 			}
 			return [][]byte{s}
 		}}
+	case "checksig-not-badsig":
+		// <key> CHECKSIG NOT with a signature that is bad (or non-standard) in one chosen way: whether
+		// that makes CHECKSIG push false or abort the script is what the flags decide
+		k := g.key()
+		mode := badSigModes[r.Intn(len(badSigModes))]
+		marg := r.Intn(mode.args)
+		scr := cat(push(g.pubForm(k, allowUnc)), []byte{refscript.OP_CHECKSIG, refscript.OP_NOT})
+		return inner{kind + ":" + mode.name, scr, func(sign func(*keyT, int) []byte) [][]byte {
+			var s []byte
+			g.withMut(mode.name, marg, func() { s = sign(k, 0) })
+			return [][]byte{s}
+		}}
+	case "multisig-not-badsig":
+		// m-of-n CHECKMULTISIG NOT where the signatures fail in different ways
+		n := 1 + r.Intn(5)
+		m := 1 + r.Intn(n)
+		ks := make([]*keyT, n)
+		scr := pushN(int64(m))
+		for i := range ks {
+			ks[i] = g.key()
+			scr = append(scr, push(g.pubForm(ks[i], allowUnc))...)
+		}
+		scr = cat(scr, pushN(int64(n)), []byte{refscript.OP_CHECKMULTISIG, refscript.OP_NOT})
+		sub := []string{"valid-wrong-order", "one-valid-rest-empty", "wrong-keys", "one-bad", "first-empty-rest-valid"}[r.Intn(5)]
+		mode := badSigModes[r.Intn(len(badSigModes))]
+		marg := r.Intn(mode.args)
+		return inner{kind + ":" + sub, scr, func(sign func(*keyT, int) []byte) [][]byte {
+			items := [][]byte{{}}
+			sigs := make([][]byte, m)
+			for i := 0; i < m; i++ {
+				sigs[i] = sign(ks[i], 0) // keys 0..m-1 in order: a passing set
+			}
+			switch sub {
+			case "valid-wrong-order":
+				for i, j := 0, m-1; i < j; i, j = i+1, j-1 {
+					sigs[i], sigs[j] = sigs[j], sigs[i]
+				}
+			case "one-valid-rest-empty":
+				for i := 1; i < m; i++ {
+					sigs[i] = []byte{}
+				}
+			case "wrong-keys":
+				for i := 0; i < m; i++ {
+					sigs[i] = sign(keys[(i+7)%len(keys)], 0)
+				}
+			case "one-bad":
+				g.withMut(mode.name, marg, func() { sigs[r.Intn(m)] = sign(ks[0], 0) })
+			case "first-empty-rest-valid":
+				sigs[0] = []byte{}
+			}
+			return append(items, sigs...)
+		}}
 	case "pk-verify-pk":
 		k1, k2 := g.key(), g.key()
 		scr := cat(push(g.pubForm(k1, allowUnc)), []byte{refscript.OP_CHECKSIGVERIFY}, push(g.pubForm(k2, allowUnc)), []byte{refscript.OP_CHECKSIG})
@@ -757,8 +828,8 @@ func (g *gctx) buildECDSA(wrapper, kind string) *spend {
 	if g.m("extra-stack-item") {
 		items = append([][]byte{{1}}, items...)
 	}
-	tmpl := wrapper + "(" + kind + ")"
-	wantOK := g.mut == ""
+	tmpl := wrapper + "(" + in.name + ")"
+	wantOK := g.mut == "" && !strings.Contains(kind, "badsig")
 	if wrapper == "p2sh" && len(script) > refscript.MaxScriptElementSize {
 		wantOK = false // the redeem script cannot be pushed
 	}
@@ -1282,7 +1353,7 @@ func (g *gctx) buildP2TRScript(kind string) *spend {
 		}
 	case "success":
 		op := successOps[r.Intn(len(successOps))]
-		if g.thorough || r.Chance(1, 2) {
+		if g.sweep {
 			op = successOps[g.arg%len(successOps)]
 		}
 		var pre, post []byte
@@ -1616,7 +1687,7 @@ func (g *gctx) buildSigInScript() *spend {
 		g.applied = true
 		pad = g.arg
 	}
-	variant := r.Intn(4)
+	variant := r.Intn(5)
 	ht := byte(1)
 	tail := cat(push(pub), []byte{refscript.OP_CHECKSIG})
 	// The signed script code is the script with every push of the signature removed; that does not
@@ -1653,6 +1724,15 @@ func (g *gctx) buildSigInScript() *spend {
 		pk = cat(push(sig), code)
 		scriptSig = push(sig)
 		tmpl = "sig-in-scriptcode-dup"
+	case 4:
+		// the same through CHECKMULTISIG: <sig> DROP 1 <pub> 1 CHECKMULTISIG, scriptSig: 0 <sig>
+		code := cat([]byte{refscript.OP_DROP, refscript.OP_1}, push(pub), []byte{refscript.OP_1, refscript.OP_CHECKMULTISIG})
+		digest = refsighash.Legacy(g.tx, code, g.idx, uint32(ht))
+		rr, ss = ecdsaSign(k.d, digest[:], r.Intn(nNonces), true)
+		sig = append(encodeDER(rr, ss, style, pad), ht)
+		pk = cat(push(sig), code)
+		scriptSig = cat([]byte{refscript.OP_0}, push(sig))
+		tmpl = "sig-in-scriptcode-multisig"
 	}
 	if g.m("find-and-delete-nonminimal-push") {
 		// the copy inside the script uses a different push opcode than CScript() << sig: not deleted
@@ -1667,6 +1747,6 @@ func (g *gctx) buildSigInScript() *spend {
 		pk = bytes.Replace(pk, push(sig), pushWith(op, sig), 1)
 	}
 	g.note = append(g.note, fmt.Sprintf("siglen=%d", len(sig)))
-	s := g.finish("", tmpl, pk, scriptSig, nil, g.mut == "")
+	s := g.finish("", tmpl, pk, scriptSig, nil, g.mut == "" && pad == 0)
 	return s
 }
